@@ -10,9 +10,13 @@ import os
 import pkgutil
 
 
+OWNER = {}      # status key -> translator module that produced it (filled by regenerate)
+
+
 def regenerate(repo: str, gen_dir: str) -> dict:
     os.makedirs(gen_dir, exist_ok=True)
     status = {}
+    OWNER.clear()
     here = os.path.dirname(os.path.abspath(__file__))
     for m in sorted(x.name for x in pkgutil.iter_modules([here])):
         mod = importlib.import_module(f"translate.{m}")
@@ -20,7 +24,10 @@ def regenerate(repo: str, gen_dir: str) -> dict:
         if f is None:
             continue
         try:
-            status.update(f(repo, gen_dir))
+            st = f(repo, gen_dir)
         except Exception as e:  # noqa  -- a lost translator is never a verdict
-            status[m] = f"lost: {type(e).__name__}: {e}"
+            st = {m: f"lost: {type(e).__name__}: {e}"}
+        for k in st:
+            OWNER[k] = m
+        status.update(st)
     return status
